@@ -274,11 +274,14 @@ pub enum Repl {
     Mismatch(Vec<Id>, usize),
     /// raws with foreign type id at position k (C04)
     MismatchRaw(Vec<Id>, usize),
+    /// an honest iterator over a shared queue that holds all but the last `k` items when `splice()` is called; the last `k`
+    /// are appended while the splice handle is alive (`len()` is right at every instant; `Vec::splice` inserts them all)
+    Growing(Vec<Id>, usize),
 }
 impl Repl {
     pub fn ids(&self) -> Option<&[Id]> {
         match self {
-            Repl::Wrappers(v) | Repl::Raws(v) | Repl::Lying(v, _) | Repl::Mismatch(v, _) | Repl::MismatchRaw(v, _) => Some(v),
+            Repl::Wrappers(v) | Repl::Raws(v) | Repl::Lying(v, _) | Repl::Mismatch(v, _) | Repl::MismatchRaw(v, _) | Repl::Growing(v, _) => Some(v),
             _ => None,
         }
     }
@@ -453,6 +456,7 @@ impl fmt::Display for Repl {
             Repl::Wrappers(v) => write!(f, "{}xWrapper", v.len()),
             Repl::Raws(v) => write!(f, "{}xRaw", v.len()),
             Repl::DrainOf(w, a, b) => write!(f, "v{w}.drain({a}..{b})"),
+            Repl::Growing(v, k) => write!(f, "{}xWrapper(+{k} later)", v.len() - k),
             Repl::LazyRefs(w, js) => write!(f, "Lazy(v{w}{js:?})"),
             Repl::Lying(v, d) if *d == LIE_HUGE => write!(f, "{}xWrapper(len=usize::MAX/2)", v.len()),
             Repl::Lying(v, d) => write!(f, "{}xWrapper(len{:+})", v.len(), d),
